@@ -39,6 +39,13 @@ pub struct Case {
     /// competing chains, so that winding and unwinding touches the wallet)
     #[serde(default = "five")]
     pub owner: u8,
+    /// 0: main chain of m blocks, candidate chain of k blocks forking d below the tip.
+    /// 1: a *returning* fork: chain B (m blocks) is the longest chain first, chain A (m+1 blocks
+    /// from genesis) overtakes it, then B is extended by a valid block and an invalid one: the
+    /// reorganisation back onto B winds blocks that were on the chain before (and may have been
+    /// pruned from memory) and fails at its last block
+    #[serde(default)]
+    pub shape: u8,
 }
 fn five() -> u8 {
     5
@@ -89,6 +96,36 @@ fn sel_for(idx: usize, len: usize) -> u16 {
 
 pub fn hist_of(c: &Case) -> HistSpec {
     let mut blocks = vec![];
+    if c.shape == 1 {
+        // B: blocks 1..=m ; A: m+1 blocks from genesis ; B extension: valid, then offending
+        for i in 0..c.m {
+            blocks.push(bs(i, c.with_txs, None));
+        }
+        for j in 0..=c.m {
+            let len = 1 + c.m + j;
+            let mut b = bs(100 + j, c.with_txs, if j == 0 { Some(sel_for(0, len)) } else { None });
+            b.dt = 240;
+            blocks.push(b);
+        }
+        let len = 1 + c.m + c.m + 1;
+        let mut e1 = bs(200, c.with_txs, Some(sel_for(c.m, len))); // child of B's last block
+        e1.dt = 230;
+        blocks.push(e1);
+        let mut e2 = bs(201, c.with_txs, None);
+        e2.dt = 230;
+        match c.kind {
+            Kind::Hdr(e) => e2.corrupt = Some(e),
+            Kind::Tx(e) => e2.bad_tx = Some((e, 1, 0)),
+        }
+        blocks.push(e2);
+        return HistSpec {
+            ncfg: NodeCfg { gp: c.gp, heartbeat: 100, social_stake: 0, loading_completed: c.loading_completed, prune: c.prune },
+            treasury: 0,
+            issuance: vec![(0, 50_000_000), (1, 70_000_000), (0, 30_000_000), (1, 9_000_000), (2, 1_000)],
+            blocks,
+            gt_policy: true,
+        };
+    }
     for i in 0..c.m {
         blocks.push(bs(i, c.with_txs, None));
     }
@@ -145,7 +182,7 @@ pub fn run_case(c: &Case) -> (Vec<(String, String)>, Info) {
     let built = block_on(build_history(&hist));
     let mut info = Info::default();
     let mut v = vec![];
-    let offending_idx = 1 + c.m + c.pos;
+    let offending_idx = if c.shape == 1 { 1 + c.m + c.m + 1 + 1 } else { 1 + c.m + c.pos };
     if built.blocks.len() <= offending_idx || built.invalid[offending_idx].is_none() {
         return (v, info); // edit not applicable in this state (discarded)
     }
@@ -164,7 +201,7 @@ pub fn run_case(c: &Case) -> (Vec<(String, String)>, Info) {
         // bound: |old| + |new| of the reorganisation this delivery could trigger
         let old_len = c.d as u64;
         let new_len = (i as u64).saturating_sub(c.m as u64);
-        d.step_bound = 2 * (old_len + new_len.max(1)) + 2;
+        d.step_bound = if c.shape == 1 { 2 * (2 * c.m as u64 + 4) + 2 } else { 2 * (old_len + new_len.max(1)) + 2 };
         let before = block_on(snapshot(&d.node, max_id));
         let outs = d.deliver(b);
         for o in &outs {
@@ -240,6 +277,14 @@ pub fn cases(thorough: bool) -> Vec<Case> {
     // payout lies (applicable to candidate blocks that carry a fee transaction)
     kinds.extend(crate::adversary::PAYOUT_EDITS.iter().map(|e| Kind::Hdr(*e)));
     kinds.extend(TX_KINDS.iter().map(|e| Kind::Tx(*e)));
+    // returning forks (shape 1)
+    for m in 2..=(if thorough { 6 } else { 4 }) {
+        for kind in [Kind::Hdr(BlockEdit::BurnFee), Kind::Hdr(BlockEdit::CreatorSig), Kind::Tx(TxEdit::NonExistentInput), Kind::Tx(TxEdit::SpentInput)] {
+            for (prune, owner) in [(2u64, 5u8), (2, 0), (8, 0)] {
+                out.push(Case { gp: 100, loading_completed: true, m, d: m, k: m + 1, pos: 1, kind, with_txs: true, prune, owner, shape: 1 });
+            }
+        }
+    }
     for loading_completed in [true, false] {
         for m in 1..=mmax {
             for d in 0..=m.min(if thorough { 6 } else { 3 }) {
@@ -263,6 +308,7 @@ pub fn cases(thorough: bool) -> Vec<Case> {
                                 continue;
                             }
                             out.push(Case {
+                                shape: 0,
                                 prune,
                                 owner,
                                 gp: if m + k > 6 { 6 } else { 100 },
